@@ -32,7 +32,17 @@ from typing import Any, Dict, List, Optional, Tuple
 from ..core import Ctx, MachineryError, NCPU, chunks
 
 FMTS = ["epytext", "restructuredtext", "google", "numpy", "plaintext"]
-OBJS = ["A", "B"]
+OBJS = ["A", "B", "V"]          # V: attribute of A documented by a field of A's docstring (class / module scenarios only)
+
+
+def text_of(o: str, inherit: bool) -> str:
+    """Whose faults the text rendered for o has (Docstring.tla Text)."""
+    return "A" if (o == "B" and inherit) else o
+
+
+def src_of(o: str, inherit: bool) -> str:
+    """The 'source' the pipeline reports against and hands to the fallbacks (Docstring.tla Src)."""
+    return "A" if ((o == "B" and inherit) or o == "V") else o
 NOFAULT = {"parse": "ok", "n": 1, "tostan": "ok", "summary": "ok", "toc": "none", "field": "ok", "node": "ok"}
 # a real epytext docstring whose ParsedEpytextDocstring.to_node() raises (an indented field before a top-level one leaves a
 # nested field list in the tree): realises the model's node = "once" on the real, unwrapped code
@@ -43,6 +53,8 @@ HANG_BUDGET = 12           # once that many calls had to be interrupted in a pha
 # proposed_fixes/C08-*.diff applied (used to try the fixes; flip the defaults when they are committed)
 _FIXED = os.environ.get("VERIF_C08_MODEL") != "prefix"      # the two defects are repaired in /repo (dac0793, 1bcc148)
 MODEL_CONSTANTS = "  PoisonedCache = %s\n  TocGuarded = %s\n" % (("FALSE", "TRUE") if _FIXED else ("TRUE", "FALSE"))
+# deviation summary-fallback-marks-source (open finding): VERIF_C08_SUMSRC=fixed describes the tree with the proposed fix
+MODEL_CONSTANTS += "  SummaryMarksSource = %s\n" % ("FALSE" if os.environ.get("VERIF_C08_SUMSRC") == "fixed" else "TRUE")
 
 
 class Injected(Exception):
@@ -59,11 +71,11 @@ def scenario_source(kind: str, inherit: bool, docA: str, docB: str) -> Tuple[str
     fine = '"""Fine docstring."""'
     a, b = repr(docA), repr(docB)
     if kind == "module":
-        src = f"{a}\ndef fb(x):\n    {b}\ndef other():\n    {fine}\n"
-        names = {"A": "m", "B": "m.fb"}
+        src = f"{a}\nv = 1\ndef fb(x):\n    {b}\ndef other():\n    {fine}\n"
+        names = {"A": "m", "B": "m.fb", "V": "m.v"}
     elif kind in ("class", "cls"):
-        src = f"class K:\n    {a}\ndef fb(x):\n    {b}\ndef other():\n    {fine}\n"
-        names = {"A": "m.K", "B": "m.fb"}
+        src = f"class K:\n    {a}\n    v = 1\ndef fb(x):\n    {b}\ndef other():\n    {fine}\n"
+        names = {"A": "m.K", "B": "m.fb", "V": "m.K.v"}
     elif kind in ("function", "func") and not inherit:
         src = f"def fa(x):\n    {a}\ndef fb(x):\n    {b}\ndef other():\n    {fine}\n"
         names = {"A": "m.fa", "B": "m.fb"}
@@ -161,9 +173,14 @@ def run_scenario(sc: Dict[str, Any]) -> Dict[str, Any]:
         """The parser's result, passed through; injects / observes failures of to_stan and to_node."""
         def __init__(self, inner: ParsedDocstring, who: str):
             ParsedDocstring.__init__(self, inner.fields)
+            if who == "A":
+                for fld in self.fields:               # the body extract_fields will hand to the attribute v
+                    if fld.tag() in ("ivar", "cvar", "var") and fld.arg() == "v" and not isinstance(fld.body(), Proxy):
+                        fld.replace_body(Proxy(fld.body(), "V"))
             if fault(who, "field") == "raises":
                 for fld in self.fields:
-                    fld.replace_body(Raising(fld.body()))
+                    if not isinstance(fld.body(), Proxy):
+                        fld.replace_body(Raising(fld.body()))
             self._inner, self._who, self._ctx = inner, who, None
             self._c08_summary: Optional[ParsedDocstring] = None
             self._node_failed = False        # a to_node() call on the wrapped object has raised
@@ -390,7 +407,7 @@ def run_scenario(sc: Dict[str, Any]) -> Dict[str, Any]:
         system.options.docformat = fmt
         system.options.processtypes = pt
         sink = io.StringIO()
-        rev.update({names[o]: o for o in OBJS})
+        rev.update({names[o]: o for o in OBJS if o in names})
         try:
             with contextlib.redirect_stdout(sink), contextlib.redirect_stderr(sink), _Alarm(CALL_TIMEOUT):
                 b = system.systemBuilder(system)
@@ -401,11 +418,13 @@ def run_scenario(sc: Dict[str, Any]) -> Dict[str, Any]:
             blank = {"pd": {o: "none" for o in OBJS}, "ps": {o: "none" for o in OBJS}, "perr": {o: False for o in OBJS},
                      "nrep": {o: 0 for o in OBJS}, "pz": {o: False for o in OBJS}}
             F0 = {o: (dict(sc["declared"][o]) if "declared" in sc else dict(inject[o]) if inject else dict(NOFAULT)) for o in OBJS}
-            return {"F": F0, "inherit": inherit, "kindA": model_kind(kind), "frame_ok": True, "xhtml": None, "reports": [],
+            return {"F": F0, "inherit": inherit, "kindA": model_kind(kind), "vdoc": False, "aux": [], "frame_ok": True, "xhtml": None, "reports": [],
                     "names": names, "seen": seen,
                     "ev": [{"o": "A", "op": "extract_fields", "r": "timeout" if isinstance(e, HangAlarm) else "escaped", "st": blank, "full": False,
                             "exc": f"{type(e).__name__}: {e}"[:200]}]}
         obs = {o: system.allobjects[names[o]] for o in ("A", "B", "X")}
+        obs["V"] = system.allobjects.get(names["V"]) if "V" in names else None
+        vdoc = obs["V"] is not None and isinstance(obs["V"].parsed_docstring, Proxy)
         if obs["A"].docstring != clean["A"] or (not inherit and obs["B"].docstring != clean["B"]):
             return {"skip": "docstring changed on the way through the builder"}
 
@@ -413,6 +432,9 @@ def run_scenario(sc: Dict[str, Any]) -> Dict[str, Any]:
             st: Dict[str, Any] = {"pd": {}, "ps": {}, "perr": {}, "nrep": {}, "pz": {}}
             for o in OBJS:
                 ob = obs[o]
+                if ob is None:
+                    st["pd"][o], st["pz"][o], st["ps"][o], st["perr"][o], st["nrep"][o] = "none", False, "none", False, 0
+                    continue
                 p = ob.parsed_docstring
                 st["pd"][o] = "none" if p is None else ("parsed" if isinstance(p, Proxy) else "plain")
                 st["pz"][o] = bool(isinstance(p, Proxy) and p._node_failed)
@@ -434,6 +456,7 @@ def run_scenario(sc: Dict[str, Any]) -> Dict[str, Any]:
                     sum(n for (fn, n, _) in reports if fn == x.fullName()))
 
         events: List[Dict[str, Any]] = []
+        st0 = project()
         x0 = xstate()
         frame_ok = True
         fn_of = {"docstring": epydoc2stan.format_docstring, "summary": epydoc2stan.format_summary, "toc": epydoc2stan.format_toc}
@@ -456,7 +479,7 @@ def run_scenario(sc: Dict[str, Any]) -> Dict[str, Any]:
                 r = "escaped"
                 exc = f"{type(e).__name__}: {e}"[:200]
                 val = None
-            srcname = "A" if (o == "B" and inherit) else o
+            srcname = src_of(o, inherit)
             full = escapeForContent(clean[srcname]).decode("utf-8", "surrogateescape") in html if html else False
             if r is None:
                 if op == "docstring":
@@ -479,6 +502,18 @@ def run_scenario(sc: Dict[str, Any]) -> Dict[str, Any]:
                 frame_ok = False
             if r == "timeout":
                 break                        # one hang is the verdict; the remaining calls would only wait again
+        # the type of the field-documented attribute (type2stan, used by the attribute tables) must come out as well
+        aux: List[Dict[str, Any]] = []
+        if obs["V"] is not None and not any(e["r"] == "timeout" for e in events):
+            try:
+                with contextlib.redirect_stdout(sink), contextlib.redirect_stderr(sink), _Alarm(CALL_TIMEOUT):
+                    tv = epydoc2stan.type2stan(obs["V"])
+                    if tv is not None:
+                        flatten(tv)
+                aux.append({"call": "type2stan", "o": "V", "r": "ok", "exc": ""})
+            except (Exception, HangAlarm) as e:
+                aux.append({"call": "type2stan", "o": "V", "r": "timeout" if isinstance(e, HangAlarm) else "escaped",
+                            "exc": f"{type(e).__name__}: {e}"[:200]})
         # the bystander still renders as in a scenario without any fault
         with contextlib.redirect_stdout(sink), contextlib.redirect_stderr(sink):
             xhtml = flatten(epydoc2stan.format_docstring(obs["X"])) + flatten(epydoc2stan.format_summary(obs["X"]))
@@ -499,15 +534,15 @@ def run_scenario(sc: Dict[str, Any]) -> Dict[str, Any]:
         if inject is None:
             # the summary of the plain text fallback object can fail as well; nothing wraps it: read it off the results
             for e in events:
-                so = "A" if (e["o"] == "B" and inherit) else e["o"]
+                so = text_of(e["o"], inherit)
                 if e["op"] == "summary" and e["st"]["pd"][e["o"]] == "plain" and e["r"] in ("broken", "brokensum"):
                     F[so]["summary"] = "stanraises" if e["r"] == "broken" else "broken"
         for e in events:          # the half-built cache only exists where a failed to_node() was later seen to return
             for o in OBJS:
-                so = "A" if (o == "B" and inherit) else o
+                so = text_of(o, inherit)
                 if seen[so]["node"] != "once":
                     e["st"]["pz"][o] = False
-        out = {"F": F, "inherit": inherit, "kindA": model_kind(kind), "ev": events, "frame_ok": frame_ok, "xhtml": xhtml,
+        out = {"F": F, "inherit": inherit, "kindA": model_kind(kind), "vdoc": vdoc, "aux": aux, "st0": st0, "ev": events, "frame_ok": frame_ok, "xhtml": xhtml,
                "reports": [[fn, n, ok] for (fn, n, ok) in reports], "names": names, "seen": seen,
                "built_parse": system.allobjects[names["A"]].parsed_docstring is not None and len(events) == 0}
     finally:
@@ -519,18 +554,41 @@ def run_scenario(sc: Dict[str, Any]) -> Dict[str, Any]:
 
 
 # ----------------------------------------------------------------------------------- the property twin
+def frame_offences(tr: Dict[str, Any]) -> List[Tuple[str, str, str]]:
+    """(object worked on, object changed, what changed) for every change Docstring.tla's FrameClause forbids."""
+    inherit = tr["inherit"]
+    out: List[Tuple[str, str, str]] = []
+    prev = tr.get("st0")
+    for e in tr["ev"]:
+        st, o = e["st"], e["o"]
+        if prev is not None and e["r"] not in ("escaped", "timeout"):
+            for p in OBJS:
+                if p == o:
+                    continue
+                for k in ("pd", "pz"):
+                    if prev[k][p] != st[k][p]:
+                        out.append((o, p, k))
+                if p != src_of(o, inherit):
+                    for k in ("ps", "nrep", "perr"):
+                        if prev[k][p] != st[k][p]:
+                            out.append((o, p, k))
+                elif not (o == "B" and inherit) and prev["ps"][p] != st["ps"][p]:
+                    out.append((o, p, "ps"))
+        prev = st
+    return out
+
+
 def judge(tr: Dict[str, Any]) -> List[str]:
     """Python twin of Docstring.tla's invariants, evaluated on an OBSERVED trace."""
     bad: List[str] = []
     F, inherit = tr["F"], tr["inherit"]
-    src = lambda o: "A" if (o == "B" and inherit) else o
-    prev_st: Optional[Dict[str, Any]] = None
+    text = lambda o: text_of(o, inherit)
+    src = lambda o: src_of(o, inherit)
     for e in tr["ev"]:
-        f = F[src(e["o"])]
+        f = F[text(e["o"])]
         st = e["st"]
         if e["r"] in ("escaped", "timeout"):
             bad.append("AlwaysResult" if e["r"] == "escaped" else "Terminates")
-            prev_st = st
             continue
         if e["op"] == "docstring":
             gave_up = f["parse"] in ("fatal", "crash")
@@ -541,19 +599,18 @@ def judge(tr: Dict[str, Any]) -> List[str]:
             if (f["tostan"] == "raises" or f.get("field") == "raises") and st["pd"][e["o"]] == "parsed" \
                     and not (st["perr"][src(e["o"])] and st["nrep"][src(e["o"])] >= 1):
                 bad.append("ReportedWhenRenderFails")
-        if e["op"] == "summary" and e["r"] not in ("summary", "brokensum", "broken"):
+        if e["op"] == "summary" and e["r"] not in ("summary", "brokensum", "broken", "undoc"):
             bad.append("SummaryAlways")
         for o in OBJS:
-            if st["pd"][o] != "none" and F[src(o)]["parse"] != "ok" and not (st["perr"][src(o)] and st["nrep"][src(o)] >= 1):
+            if o != "V" and st["pd"][o] != "none" and F[text(o)]["parse"] != "ok" and not (st["perr"][src(o)] and st["nrep"][src(o)] >= 1):
                 bad.append("ReportedWhenFailed")
             if (st["nrep"][o] > 0) != st["perr"][o]:
                 bad.append("OneReport")
-        if prev_st is not None:
-            for p in OBJS:
-                if p != e["o"] and p != src(e["o"]):
-                    if any(prev_st[k][p] != st[k][p] for k in ("pd", "ps", "perr", "nrep", "pz")):
-                        bad.append("Frame")
-        prev_st = st
+    if frame_offences(tr):
+        bad.append("Frame")
+    for a in tr.get("aux", []):
+        if a["r"] != "ok":
+            bad.append("AlwaysResult" if a["r"] == "escaped" else "Terminates")
     # one report per object: at most one effective reportErrors per (object)
     per_obj: Dict[str, int] = {}
     for fn, n, names_file in tr["reports"]:
@@ -569,13 +626,13 @@ def judge(tr: Dict[str, Any]) -> List[str]:
 
 def _explained(w: Dict[str, Any]) -> Optional[set]:
     """Which known deviations account for EVERY offending event of the witness (None: something else is wrong)."""
-    if not set(w.get("failed") or ["?"]) <= {"AlwaysResult", "FallbackComplete"}:
+    if not set(w.get("failed") or ["?"]) <= {"AlwaysResult", "FallbackComplete", "Frame"}:
         return None
     tr = w.get("trace") or {}
-    src = lambda o: "A" if (o == "B" and tr.get("inherit")) else o
+    inherit = bool(tr.get("inherit"))
     need = set()
     for e in tr.get("ev", []):
-        f = tr["F"][src(e["o"])]
+        f = tr["F"][text_of(e["o"], inherit)]
         if e["r"] == "escaped":
             if e["op"] == "toc" and (f["toc"] == "noderaises" or f.get("node") == "once"):
                 need.add("toc")
@@ -588,6 +645,18 @@ def _explained(w: Dict[str, Any]) -> Optional[set]:
                 return None
             elif (f["parse"] in ("fatal", "crash") or (f["tostan"] == "raises" and e["st"]["pd"][e["o"]] == "parsed")) and e["r"] != "plainfull":
                 return None
+    if "Frame" in (w.get("failed") or []):
+        if not tr.get("frame_ok", True) or not tr.get("x_same", True):
+            return None
+        offs = frame_offences(tr)
+        if not offs or any(off != ("V", "A", "ps") for off in offs):
+            return None
+        need.add("sumsrc")
+    for a in tr.get("aux", []):
+        if a["r"] == "escaped" and a["call"] == "type2stan" and a["exc"].startswith("NotImplementedError"):
+            need.add("type2stan")
+        elif a["r"] != "ok":
+            return None
     return need or None
 
 
@@ -603,6 +672,19 @@ def kf_poisoned_cache(w: Dict[str, Any]) -> bool:
     document of an epytext docstring whose to_node() had failed (unreported) in get_summary / get_toc before."""
     need = _explained(w)
     return need == {"cache"}
+
+
+def kf_summary_marks_source(w: Dict[str, Any]) -> bool:
+    """Python twin of Docstring.tla FrameOrKF: the only frame offence is the summary of the parent class A replaced by
+    'Broken description' when the summary of its field-documented attribute V failed to render."""
+    need = _explained(w)
+    return need is not None and "sumsrc" in need
+
+
+def kf_type2stan(w: Dict[str, Any]) -> bool:
+    """type2stan(attribute) lets NotImplementedError escape: the fallback of safe_to_stan calls ParsedTypeDocstring.to_node()."""
+    need = _explained(w)
+    return need is not None and "type2stan" in need
 
 
 # ---------------------------------------------------------------------------------------- docstrings
@@ -630,8 +712,11 @@ def inj_scenario(rec: Dict[str, Any], fmt: str, pt: bool) -> Dict[str, Any]:
             return ONCE_DOC % o
         base = TITLED if F[o]["toc"] in ("ok", "stanraises", "noderaises") else PLAIN
         return base[fmt].replace("Summary", "Summary of %s" % o, 1)
+    docA = doc("A")
+    if rec["kindA"] == "cls" and fmt != "plaintext":      # the field that documents the attribute v
+        docA = docA.rstrip("\n") + ("\n@ivar v: The I{v} attribute.\n" if fmt == "epytext" else "\n:ivar v: The *v* attribute.\n")
     kind = "class" if rec["kindA"] == "cls" else ("method" if rec["inherit"] else "function")
-    return {"fmt": fmt, "pt": pt, "kind": kind, "inherit": rec["inherit"], "docA": doc("A"), "docB": doc("B"),
+    return {"fmt": fmt, "pt": pt, "kind": kind, "inherit": rec["inherit"], "docA": docA, "docB": doc("B"),
             "faults": inject_for(F), "declared": F, "order": [[x["o"], x["op"]] for x in rec["res"]]}
 
 
@@ -658,7 +743,7 @@ FRAGMENTS = {
     "plaintext": ["<", ">", "&", "<p>", "&amp;", "\n\n", "word"],
 }
 COMMON = ["\n", "\n\n", " ", "  ", "    ", "word", "a.b.c", "(", ")", "[", "]", "{", "}", "<a>", "&amp;", "&#0;", "<", ">", "&", ":", ";", "..", "...",
-          " -- ", "~", "\\", "\t", "\x00", "\x0b", "\x0c", "\r", "\u2028", "\x85", "\x1f", "\ufeff", "\u200b", "\U0001f600", "é", "'", '"', "'''", "%s", "{0}"]
+          " -- ", "~", "\\", "\t", "\u00a0", "\x00", "\x0b", "\x0c", "\r", "\u2028", "\x85", "\x1f", "\ufeff", "\u200b", "\U0001f600", "é", "'", '"', "'''", "%s", "{0}"]
 
 
 def real_docstrings(limit: int = 400) -> List[str]:
@@ -702,7 +787,7 @@ def gen_docstrings(seed: int, n: int) -> List[Tuple[str, str]]:
     s_mut = st.tuples(st.sampled_from(reals) if reals else st.just("Doc."),
                       st.lists(st.tuples(st.integers(0, 5000), frag, st.integers(0, 6)), min_size=1, max_size=5)).map(mutate)
     # documents divided in sections whose headings repeat, from one word to well over a hundred characters
-    words = ["Notes", "Usage", "Thread safety", "and reentrancy guarantees", "of the public interface", "when the transport is closed by the peer",
+    words = ["\u65e5\u672c\u8a9e", "\u0395\u03bb\u03bb\u03b7\u03bd\u03b9\u03ba\u03ac", "!?", "Notes", "Usage", "Thread safety", "and reentrancy guarantees", "of the public interface", "when the transport is closed by the peer",
              "1", "2", "Caf\u00e9", "x" * 30]
     s_head = st.lists(st.sampled_from(words), min_size=1, max_size=6).map(lambda ws: " ".join(ws))
     under = st.sampled_from(["=", "-", "~"])
@@ -716,8 +801,13 @@ def gen_docstrings(seed: int, n: int) -> List[Tuple[str, str]]:
         return "\n\n".join(parts) + "\n"
     s_sect = st.tuples(st.lists(s_head, min_size=1, max_size=2), st.lists(st.integers(0, 3), min_size=2, max_size=4), under,
                        st.sampled_from([".", " L{x}.", " *y*."])).map(sections)
+    # body and type of an attribute documented by a field of its class (@ivar v: .. / @type v: ..), separated by \x1e
+    tfrag = st.sampled_from(["int", "str", " or ", "C{int}", "I{str}", "I{a\u00a0b}", "L{x.y}", "`x`", "*a*", "list of ", "(", ")", "[", "{1, 2}", ",", " ",
+                             "\u00a0", "optional", "B{", "}", "'q", "\n    more"])
+    s_ivar = st.tuples(st.lists(frag, min_size=1, max_size=6).map(lambda xs: "".join(xs)),
+                       st.lists(tfrag, min_size=1, max_size=5).map(lambda xs: "".join(xs))).map(lambda bt: bt[0] + "\x1e" + bt[1])
     out: List[Tuple[str, str]] = []
-    fams = [("fragments", s_frag), ("fragments", s_frag_sp), ("mutated", s_mut), ("unicode", s_uni), ("control", s_ctl), ("sections", s_sect)]
+    fams = [("ivarbody", s_ivar), ("fragments", s_frag), ("fragments", s_frag_sp), ("mutated", s_mut), ("unicode", s_uni), ("control", s_ctl), ("sections", s_sect)]
     strat = st.one_of(*[s.map(lambda t, f=f: (f, t)) for f, s in fams])
 
     @hseed(seed)
@@ -731,7 +821,14 @@ def gen_docstrings(seed: int, n: int) -> List[Tuple[str, str]]:
 
 
 # ------------------------------------------------------------------------------- Slug.tla: section anchors
-SLUG_WORD = {"a": "Alpha beta gamma delta epsilon zeta eta", "b": "Notes", "1": "1", "2": "2", "3": "3", "4": "4"}
+SLUG_WORD = {"a": "Alpha beta gamma delta epsilon zeta eta", "b": "Notes", "j": "\u65e5\u672c\u8a9e \u0395\u03bb\u03bb\u03b7\u03bd\u03b9\u03ba\u03ac !?",
+             "1": "1", "2": "2", "3": "3", "4": "4"}
+SLUG_ORDERS = [list(p) for p in __import__("itertools").permutations(["docstring", "summary", "toc"])]
+
+
+def slug_id(tokens: List[str]) -> str:
+    """The real anchor that corresponds to a model slug (a sequence of tokens; "-1" is the bare candidate suffix)."""
+    return "-".join(SLUG_WORD.get(t, t) for t in tokens).lower().replace(" ", "-").replace("--", "-")
 
 
 def slug_doc(doc: List[List[str]]) -> str:
@@ -759,7 +856,16 @@ def _slug_job(rec: Dict[str, Any]) -> Dict[str, Any]:
     except Exception as e:
         return {"r": "escaped", "ids": [], "text": text, "exc": f"{type(e).__name__}: {e}"[:200]}
     ids = [sec["ids"][0] if sec["ids"] else "" for sec in document.findall(nodes.section)]
-    return {"r": "ok", "ids": ids, "text": text}
+    # the same document through the pipeline, in each of the six orders of body / summary / toc (fresh system each time)
+    bad_orders = []
+    # (documents of up to two sections: all six orders; longer ones: body first and toc first)
+    for order in (SLUG_ORDERS if len(rec["doc"]) <= 2 else [["docstring", "summary", "toc"], ["toc", "summary", "docstring"]]):
+        tr = run_scenario({"fmt": "epytext", "pt": False, "kind": "function", "inherit": False, "docA": text, "docB": "Docstring of B.",
+                           "faults": None, "order": [["A", op] for op in order]})
+        worst = [e for e in tr.get("ev", []) if e["r"] in ("escaped", "timeout")]
+        if worst:
+            bad_orders.append({"order": order, "op": worst[0]["op"], "r": worst[0]["r"], "exc": worst[0]["exc"]})
+    return {"r": "ok", "ids": ids, "text": text, "bad_orders": bad_orders}
 
 
 def _fuzz_job(job: Dict[str, Any]) -> Dict[str, Any]:
@@ -783,7 +889,7 @@ INVARIANT ReportedWhenFailed
 INVARIANT ReportedWhenRenderFails
 INVARIANT OneReport
 INVARIANT SummaryAlways
-PROPERTY Frame
+PROPERTY FrameOrKF
 PROPERTY SourceParseUntouched
 """
 
@@ -802,12 +908,13 @@ INVARIANT ReportedWhenFailed
 INVARIANT ReportedWhenRenderFails
 INVARIANT OneReport
 INVARIANT SummaryAlways
-PROPERTY Frame
+PROPERTY FrameOrKF
 """
 
 
 def slim(tr: Dict[str, Any]) -> Dict[str, Any]:
-    return {"F": tr["F"], "inherit": tr["inherit"], "kindA": tr["kindA"],
+    return {"F": tr["F"], "inherit": tr["inherit"], "kindA": tr["kindA"], "vdoc": tr.get("vdoc", False), "st0": tr.get("st0"),
+            "aux": tr.get("aux", []), "frame_ok": tr.get("frame_ok", True), "x_same": tr.get("x_same", True),
             "ev": [{"o": e["o"], "op": e["op"], "r": e["r"], "st": e["st"]} for e in tr["ev"]]}
 
 
@@ -835,6 +942,8 @@ def run(ctx: Ctx) -> int:
     rng = random.Random(ctx.seed)
     ctx.register_matcher("format-toc-unguarded", kf_toc_escapes)
     ctx.register_matcher("epytext-half-built-document-cached", kf_poisoned_cache)
+    ctx.register_matcher("summary-fallback-marks-source", kf_summary_marks_source)
+    ctx.register_matcher("type2stan-fallback-not-implemented", kf_type2stan)
     nproc = max(2, min(NCPU, 16))
     all_traces: List[Dict[str, Any]] = []
 
@@ -889,22 +998,26 @@ def run(ctx: Ctx) -> int:
     # distinct fault configurations x inherit x kind (every one is replayed with every enumerated order)
     ctx.extra["fault_configurations"] = len({json.dumps([x["F"], x["inherit"], x["kindA"]], sort_keys=True) for x in recs})
     # replay: every fault configuration with a seeded sample of the enumerated call orders (all of them would be ~13 ms each)
-    per_cfg = 10 if ctx.quick else 60
-    groups: Dict[str, List[Dict[str, Any]]] = {}
+    # (all six orders of body / summary / toc on A are replayed for every configuration)
+    per_perm = 2 if ctx.quick else 8
+    groups: Dict[str, Dict[str, List[Dict[str, Any]]]] = {}
     for rec in recs:
-        groups.setdefault(json.dumps([rec["F"], rec["inherit"], rec["kindA"]], sort_keys=True), []).append(rec)
+        perm_a = ",".join(x["op"] for x in rec["res"] if x["o"] == "A")
+        groups.setdefault(json.dumps([rec["F"], rec["inherit"], rec["kindA"]], sort_keys=True), {}).setdefault(perm_a, []).append(rec)
     chosen: List[Dict[str, Any]] = []
     for key in sorted(groups):
-        g = groups[key]
-        g.sort(key=lambda x: json.dumps(x["res"], sort_keys=True))
-        chosen += g if len(g) <= per_cfg else rng.sample(g, per_cfg)
+        for perm_a in sorted(groups[key]):
+            g = groups[key][perm_a]
+            g.sort(key=lambda x: json.dumps(x["res"], sort_keys=True))
+            chosen += g if len(g) <= per_perm else rng.sample(g, per_perm)
+    ctx.extra["orders_of_A_replayed_per_configuration"] = sorted({len(v) for v in groups.values()})
     ctx.extra["behaviours_replayed"] = len(chosen)
     ctx.exhaustive = len(chosen) == len(recs)
     jobs = []
     markup_fmts = [f for f in FMTS if f != "plaintext"]
     for idx, rec in enumerate(chosen):
         needs_titles = any(rec["F"][o]["toc"] in ("ok", "stanraises") or rec["F"][o]["field"] == "raises"
-                           for o in OBJS)                # plain text has neither section titles nor fields
+                           for o in OBJS) or rec.get("vdoc", False)   # plain text has neither section titles nor fields
         fmt = markup_fmts[idx % len(markup_fmts)] if needs_titles else FMTS[idx % len(FMTS)]
         if any(rec["F"][o]["node"] == "once" for o in OBJS):
             fmt = "epytext"                              # the deviation lives in ParsedEpytextDocstring
@@ -938,24 +1051,27 @@ def run(ctx: Ctx) -> int:
     if not srecs:
         raise MachineryError("Slug: TLC emitted no document")
     rng.shuffle(srecs)
-    sres, cut = budgeted_map(_slug_job, srecs, nproc, lambda x: x.get("r") == "timeout")
+    sres, cut = budgeted_map(_slug_job, srecs, nproc, lambda x: x.get("r") == "timeout" or any(b["r"] == "timeout" for b in x.get("bad_orders", [])))
     ctx.extra["slug_phase_cut_short_by_hangs"] = cut
     slug_mism = 0
     for rec, got in zip(srecs, sres):
         if "gen_error" in got:
             raise MachineryError(f"Slug: generated epytext does not parse: {got}")
         ctx.traces += 1
-        want = ["-".join(SLUG_WORD[t] for t in sid).lower().replace(" ", "-") for sid in rec["ids"]]
+        want = [slug_id(sid) for sid in rec["ids"]]
         bad_s = []
         if got["r"] == "timeout":
             bad_s.append("Terminates")
         elif got["r"] == "escaped":
             bad_s.append("AlwaysResult")
-        elif len(got["ids"]) != len(rec["doc"]) or len(set(got["ids"])) != len(got["ids"]) or not all(got["ids"]):
+        elif len(got["ids"]) != len(rec["doc"]) or len(set(got["ids"])) != len(got["ids"]):
             bad_s.append("IdsDistinct")
+        elif got.get("bad_orders"):
+            bad_s.append("Terminates" if got["bad_orders"][0]["r"] == "timeout" else "AlwaysResult")
         if bad_s:
             ctx.violation({"invariant": bad_s[0], "failed": bad_s, "origin": "slug", "headings": rec["doc"], "input": got["text"],
-                           "observed": {"result": got["r"], "ids": got["ids"], "exc": got.get("exc", "")}, "expected": {"ids": want},
+                           "observed": {"result": got["r"], "ids": got["ids"], "exc": got.get("exc", ""), "orders": got.get("bad_orders", [])[:3]},
+                           "expected": {"ids": want},
                            "key": "slug:%s:%s" % (bad_s, [len(h) for h in rec["doc"]])})
         elif got["ids"] != want:
             slug_mism += 1
@@ -979,10 +1095,17 @@ def run(ctx: Ctx) -> int:
         # every docstring in every docformat; kind / process-types / order rotate and are shuffled by the seed
         for fi, fmt in enumerate(FMTS):
             kind = kinds[(idx + fi) % len(kinds)]
-            order = ops[:]
+            docA = text
+            if fam == "ivarbody":             # the fuzzed text is the body (and the type) of the field that documents K.v / m.v
+                kind = ("class", "module")[(idx + fi) % 2]
+                body, typ = text.split("\x1e", 1)
+                body = body.replace("\n", "\n    ").strip() or "x"
+                f1, f2 = ("@ivar v: %s", "@type v: %s") if fmt == "epytext" else (":ivar v: %s", ":type v: %s")
+                docA = "Summary of the owner.\n\n" + (f1 % body) + "\n" + (f2 % (typ.strip() or "int")) + "\n"
+            order = ops[:] + ([["V", "docstring"], ["V", "summary"]] if kind in ("class", "module") else [])
             rng.shuffle(order)
             fjobs.append({"fmt": fmt, "pt": bool((idx + fi) % 2), "kind": kind, "inherit": kind in ("method", "attribute"),
-                          "docA": text, "docB": "Docstring of B, %s." % ("inherited" if kind in ("method", "attribute") else "own"),
+                          "docA": docA, "docB": "Docstring of B, %s." % ("inherited" if kind in ("method", "attribute") else "own"),
                           "faults": None, "order": order, "family": fam})
     fres, cut = budgeted_map(_fuzz_job, fjobs, nproc, lambda t: any(e["r"] == "timeout" for e in t.get("ev", [])))
     ctx.extra["fuzz_phase_cut_short_by_hangs"] = cut
@@ -1104,7 +1227,8 @@ def replay(ctx: Ctx, path: str) -> int:
     if w.get("origin") == "slug":
         got = _slug_job({"doc": w["headings"]})
         bad_s = (["Terminates"] if got.get("r") == "timeout" else ["AlwaysResult"] if got.get("r") == "escaped"
-                 else ["IdsDistinct"] if len(set(got.get("ids", []))) != len(w["headings"]) else [])
+                 else ["IdsDistinct"] if len(set(got.get("ids", []))) != len(w["headings"])
+                 else ["AlwaysResult"] if got.get("bad_orders") else [])
         print("replay:", got.get("r"), got.get("ids"))
         print("replay:", "still violated: " + ",".join(bad_s) if bad_s else "holds now")
         if bad_s:
